@@ -73,6 +73,21 @@ class ContainerRec:
                       "last": self.idof(sd.GetLastItem())})
         return o
 
+
+    def _call(self, ev, fn):
+        """run one operation of the real container; an exception is a recorded outcome (clause OpRaises), not a harness crash"""
+        try:
+            res = fn()
+        except Exception as ex:      # noqa: BLE001
+            ev["raised"] = type(ex).__name__
+            try:
+                ev["obs"] = self.obs()
+            except Exception:       # noqa: BLE001
+                pass
+            self.emit(ev)
+            return None, True
+        return res, False
+
     # ---- operations
     def new(self, x, g, l):
         it = SearchDataItem(Point(np.array([float(x)]), []), float(x))
@@ -90,36 +105,44 @@ class ContainerRec:
         self.emit({"op": "setr", "i": i, "g": qk(g), "l": qk(l), "obs": self.obs()})
 
     def insertfirst(self, a, b):
-        self.sd.InsertFirstDataItem(self.items[a - 1], self.items[b - 1])
-        self.emit({"op": "insertfirst", "a": a, "b": b, "obs": self.obs()})
+        _, bad = self._call({"op": "insertfirst", "a": a, "b": b}, lambda: self.sd.InsertFirstDataItem(self.items[a - 1], self.items[b - 1]))
+        if not bad:
+            self.emit({"op": "insertfirst", "a": a, "b": b, "obs": self.obs()})
 
     def insert(self, i, hint=0):
-        if hint:
-            self.sd.InsertDataItem(self.items[i - 1], self.items[hint - 1])
-        else:
-            self.sd.InsertDataItem(self.items[i - 1])
-        self.emit({"op": "insert", "i": i, "hint": int(hint), "obs": self.obs()})
+        _, bad = self._call({"op": "insert", "i": i, "hint": int(hint)},
+                            (lambda: self.sd.InsertDataItem(self.items[i - 1], self.items[hint - 1])) if hint else (lambda: self.sd.InsertDataItem(self.items[i - 1])))
+        if not bad:
+            self.emit({"op": "insert", "i": i, "hint": int(hint), "obs": self.obs()})
 
     def clear(self):
-        self.sd.ClearQueue()
-        self.emit({"op": "clear", "obs": self.obs()})
+        _, bad = self._call({"op": "clear"}, self.sd.ClearQueue)
+        if not bad:
+            self.emit({"op": "clear", "obs": self.obs()})
 
     def refill(self):
-        self.sd.RefillQueue()
-        self.emit({"op": "refill", "obs": self.obs()})
+        _, bad = self._call({"op": "refill"}, self.sd.RefillQueue)
+        if not bad:
+            self.emit({"op": "refill", "obs": self.obs()})
 
     def maxg(self):
-        r = self.sd.GetDataItemWithMaxGlobalR()
+        r, bad = self._call({"op": "maxg", "res": 0}, self.sd.GetDataItemWithMaxGlobalR)
+        if bad:
+            return 0
         self.emit({"op": "maxg", "res": self.idof(r), "obs": self.obs()})
         return self.idof(r)
 
     def maxl(self):
-        r = self.sd.GetDataItemWithMaxLocalR()
+        r, bad = self._call({"op": "maxl", "res": 0}, self.sd.GetDataItemWithMaxLocalR)
+        if bad:
+            return 0
         self.emit({"op": "maxl", "res": self.idof(r), "obs": self.obs()})
         return self.idof(r)
 
     def find(self, x):
-        r = self.sd.FindDataItemByOneDimensionalPoint(float(x))
+        r, bad = self._call({"op": "find", "x": q(float(x)), "res": 0}, lambda: self.sd.FindDataItemByOneDimensionalPoint(float(x)))
+        if bad:
+            return 0
         self.emit({"op": "find", "x": q(float(x)), "res": self.idof(r), "obs": self.obs()})
         return self.idof(r)
 
@@ -132,11 +155,15 @@ class ContainerRec:
         return len(self.items)
 
     def cq_insert(self, i, key):
-        self.cq.Insert(float(key), self.items[i - 1])
-        self.emit({"op": "cq_insert", "i": i, "key": qk(key), "obs": self.obs()})
+        _, bad = self._call({"op": "cq_insert", "i": i, "key": qk(key)}, lambda: self.cq.Insert(float(key), self.items[i - 1]))
+        if not bad:
+            self.emit({"op": "cq_insert", "i": i, "key": qk(key), "obs": self.obs()})
 
     def cq_best(self):
-        item, key = self.cq.GetBestItem()
+        r, bad = self._call({"op": "cq_best", "res": 0, "key": "0"}, self.cq.GetBestItem)
+        if bad:
+            return
+        item, key = r
         self.emit({"op": "cq_best", "res": self.idof(item), "key": qk(key), "obs": self.obs()})
 
     def cq_clear(self):
